@@ -259,4 +259,386 @@ theorem active_partial {env : Env} {c : Consts} {hps : List HP} {pk : Option (Li
   unfold Space.decode
   simp only [hlen, if_true, hcfg]
 
+/-! ### samples and casts are members -/
+
+/-- the contract of the `random_state` tape for a draw of domain `d`: unit draws lie in `[0,1]`,
+`randint` / `choice` return an integer of the requested range -/
+def DrawOK : Domain → Draw → Prop
+  | .flt _, .unit u => 0 ≤ u ∧ u ≤ 1
+  | .int d, .idx k => d.scale = .lin ∧ d.lower ≤ k ∧ k ≤ d.upper
+  | .int d, .unit u => d.scale = .log ∧ 0 ≤ u ∧ u ≤ 1
+  | .cat d, .idx k => 0 ≤ k ∧ k < d.cats.length
+  | .nn _, .unit u => 0 ≤ u ∧ u ≤ 1
+  | .fin d, .idx k => 0 ≤ k ∧ k < d.size
+  | _, _ => False
+
+/-- hypotheses of `sample_member_partial`: the abstract `exp`/`log` of the sampler invert and are
+monotone on the bounds (log / reverse-log kinds only); a quantisation step is positive and both
+bounds are multiples of it (`Float.quantized` enforces this for floats; for integers it does not:
+F6); a nearest-neighbour ordinal has more than one category (else `sample` raises) -/
+def SampleHyp (env : Env) : Domain → Prop
+  | .flt d =>
+      (match d.scale with
+       | .lin => True
+       | .log => ScalingOK env.log d.lower d.upper
+       | .rlog => ScalingOK env.rlogS d.lower d.upper) ∧
+      ∀ q, d.q = some q → 0 < q ∧ ∃ i j : ℤ, d.lower = (i : ℚ) * q ∧ d.upper = (j : ℚ) * q
+  | .int d =>
+      (d.scale = .log → ScalingOK env.log (d.lower : ℚ) (d.upper : ℚ)) ∧
+      ∀ q, d.q = some q → 0 < q ∧ q ∣ d.lower ∧ q ∣ d.upper
+  | .nn d => 1 < d.cats.length
+  | _ => True
+
+/- Full statement: every sampled value is a member.  False for quantised integers with a step
+that does not divide the bounds (`qrandint_counterexample`) and for one-category nearest-neighbour
+ordinals (`nn_single_sample_counterexample`); `SampleHyp` excludes exactly these. -/
+/-- **sample_member (partial).** For every draw the tape contract allows, `sample` returns a
+member of the domain: inside the bounds / a listed value, of the right type. -/
+theorem sample_member_partial {env : Env} {c : Consts} {d : Domain} (hok : d.ok = true)
+    {dr : Draw} (hdr : DrawOK d dr) (hs : SampleHyp env d) :
+    ∃ v, d.sample env c dr = .ok v ∧ d.member env v = true := by
+  cases d with
+  | flt f =>
+    cases dr with
+    | idx _ => simp [DrawOK] at hdr
+    | unit u =>
+      simp only [DrawOK] at hdr
+      simp only [Domain.ok, Bool.and_eq_true, decide_eq_true_eq] at hok
+      obtain ⟨hsc, hq⟩ := hs
+      have hraw : ∃ v, f.sampleRaw env u = .ok v ∧ f.lower ≤ v ∧ v ≤ f.upper := by
+        apply float_sampleRaw_mem hok.1 _ hdr.1 hdr.2
+        cases hk : f.scale with
+        | lin => trivial
+        | log => rw [hk] at hsc hok; simp only [decide_eq_true_eq] at hok; exact ⟨hok.2, hsc⟩
+        | rlog => rw [hk] at hsc hok; simp only [decide_eq_true_eq] at hok; exact ⟨hok.2.1, hok.2.2, hsc⟩
+      obtain ⟨v, hv, h1, h2⟩ := hraw
+      simp only [Domain.sample, FloatDom.sample, hv]
+      refine ⟨_, rfl, ?_⟩
+      have key : f.lower ≤ f.applyQ v ∧ f.applyQ v ≤ f.upper := by
+        unfold FloatDom.applyQ
+        split
+        · exact ⟨h1, h2⟩
+        · rename_i q hqq
+          obtain ⟨hq0, i, j, hl, hu⟩ := hq q hqq
+          exact quantizeR_mem hq0 hl hu h1 h2
+      simp only [Domain.member, decide_eq_true_eq]
+      exact key
+  | int f =>
+    simp only [Domain.ok, Bool.and_eq_true, decide_eq_true_eq] at hok
+    obtain ⟨hsc, hq⟩ := hs
+    have hraw : ∃ k, f.sampleRaw env dr = .ok k ∧ f.lower ≤ k ∧ k ≤ f.upper := by
+      apply int_sampleRaw_mem hok.1
+      cases dr with
+      | idx k =>
+        simp only [DrawOK] at hdr
+        rw [hdr.1]; exact hdr.2
+      | unit u =>
+        simp only [DrawOK] at hdr
+        rw [hdr.1]
+        have hpos : 0 < f.lower := by
+          have := hok.2; rw [hdr.1] at this; simpa using this
+        exact ⟨hdr.2.1, hdr.2.2, hpos, hsc hdr.1⟩
+    obtain ⟨k, hk, h1, h2⟩ := hraw
+    simp only [Domain.sample, IntDom.sample, hk]
+    refine ⟨_, rfl, ?_⟩
+    have key : f.lower ≤ f.applyQ k ∧ f.applyQ k ≤ f.upper := by
+      unfold IntDom.applyQ
+      split
+      · exact ⟨h1, h2⟩
+      · rename_i q hqq
+        obtain ⟨hq0, hl, hu⟩ := hq q hqq
+        exact quantizeI_mem hq0 hl hu h1 h2
+    simp only [Domain.member, decide_eq_true_eq]
+    exact key
+  | cat f =>
+    cases dr with
+    | unit _ => simp [DrawOK] at hdr
+    | idx k =>
+      simp only [DrawOK] at hdr
+      simp only [Domain.ok] at hok
+      obtain ⟨v, hv, hm⟩ := cat_sample_member (c := c) hok hdr.1 hdr.2
+      exact ⟨v, hv, member_cat hok hm⟩
+  | nn f =>
+    cases dr with
+    | idx _ => simp [DrawOK] at hdr
+    | unit u =>
+      simp only [Domain.ok] at hok
+      obtain ⟨v, hv, hm⟩ := nn_sample_member env f hs u
+      exact ⟨v, hv, member_nn hok hm⟩
+  | fin f =>
+    cases dr with
+    | unit _ => simp [DrawOK] at hdr
+    | idx k =>
+      simp only [DrawOK] at hdr
+      obtain ⟨v, hv, hm⟩ := fin_sample_member env f k hdr.1 hdr.2
+      exact ⟨v, hv, member_fin hm⟩
+
+/-- **qrandint (partial).** A quantised integer domain whose step divides both bounds samples
+inside the bounds. -/
+theorem qrandint_partial {env : Env} {c : Consts} (lower upper q k : ℤ) (_hle : lower ≤ upper)
+    (hq : 0 < q) (hl : q ∣ lower) (hu : q ∣ upper) (h1 : lower ≤ k) (h2 : k ≤ upper) :
+    ∃ v, (Domain.int ⟨lower, upper, .lin, some q⟩).sample env c (.idx k) = .ok (.int v) ∧
+      lower ≤ v ∧ v ≤ upper := by
+  refine ⟨quantizeI q k, rfl, quantizeI_mem hq hl hu h1 h2⟩
+
+/-- **qrandint, full statement refuted (F6):** `qrandint(1, 10, 4)`: the draw `1` (a legal
+result of `randint(1, 11)`) is quantised to `round(1/4)*4 = 0`, outside `[1, 10]`. -/
+theorem qrandint_counterexample :
+    ¬ (∀ (env : Env) (c : Consts) (lower upper q k : ℤ), lower ≤ upper → 0 < q → lower ≤ k → k ≤ upper →
+        ∃ v, (Domain.int ⟨lower, upper, .lin, some q⟩).sample env c (.idx k) = .ok (.int v) ∧
+          lower ≤ v ∧ v ≤ upper) := by
+  intro hall
+  obtain ⟨v, hv, h1, _⟩ := hall ⟨⟨id, id⟩, ⟨id, id⟩, ⟨id, id⟩⟩ ⟨0, 0, 0⟩ 1 10 4 1 (by decide) (by decide)
+    (by decide) (by decide)
+  have : (Domain.int ⟨1, 10, .lin, some 4⟩).sample ⟨⟨id, id⟩, ⟨id, id⟩, ⟨id, id⟩⟩ ⟨0, 0, 0⟩ (.idx 1) =
+      .ok (.int 0) := by decide +kernel
+  rw [this] at hv
+  injection hv with hv
+  injection hv with hv
+  omega
+
+/-- list-valued samples of a quantised integer domain are floats (`np.float64`), not `int`:
+`qrandint(0, 8, 4).sample(size=3)` on draws `1, 5, 7` (second half of F6) -/
+theorem sample_list_quantised_int_counterexample :
+    (Domain.int ⟨0, 8, .lin, some 4⟩).sampleN ⟨⟨id, id⟩, ⟨id, id⟩, ⟨id, id⟩⟩ ⟨0, 0, 0⟩
+      [.idx 1, .idx 5, .idx 7] = .ok [.flt 0, .flt 4, .flt 8] := by decide +kernel
+
+/-- a one-category nearest-neighbour ordinal (`ordinal([5], kind="nn")`) cannot be sampled:
+`uniform(None, None)` raises `TypeError` -/
+theorem nn_single_sample_counterexample (env : Env) (c : Consts) (u : ℚ) :
+    (Domain.nn ⟨[.int 5], false⟩).ok = true ∧
+    (Domain.nn ⟨[.int 5], false⟩).sample env c (.unit u) = .error .typeError :=
+  ⟨by decide, nn_sample_single env ⟨[.int 5], false⟩ rfl u⟩
+
+/-- … and cannot be encoded: `HyperparameterRangesImpl` picks the nearest-neighbour encoder, whose
+constructor asserts `len(choices) > 1` -/
+theorem nn_single_encoder_counterexample (env : Env) (c : Consts) :
+    mkRange env c ⟨"x", .nn ⟨[.int 5], false⟩, none⟩ = .error .assertion := by
+  simp [mkRange, mkRangeCore, mkOrdNN]
+
+/-- **cast_member.** Casting a member gives a member, for every kind. -/
+theorem cast_member {env : Env} {c : Consts} {d : Domain} (hok : d.ok = true) {v : Val}
+    (hv : d.member env v = true) : ∃ v', d.cast env c v = .ok v' ∧ d.member env v' = true := by
+  cases d with
+  | flt f =>
+    cases v with
+    | flt x => exact ⟨.flt x, rfl, hv⟩
+    | int _ => simp [Domain.member] at hv
+    | str _ => simp [Domain.member] at hv
+  | int f =>
+    cases v with
+    | int k => exact ⟨.int k, int_cast_member f k, hv⟩
+    | flt _ => simp [Domain.member] at hv
+    | str _ => simp [Domain.member] at hv
+  | cat f =>
+    simp only [Domain.ok] at hok
+    have hm := mem_of_member_cats hv hok
+    exact ⟨v, cat_cast_member hok hm, hv⟩
+  | nn f =>
+    simp only [Domain.ok] at hok
+    have hm := mem_of_member_cats hv (nn_catsOk hok)
+    obtain ⟨x, hx⟩ := nn_num_some hok hm
+    have hne : f.cats ≠ [] := List.ne_nil_of_mem hm
+    obtain ⟨v', hv', hm'⟩ := nn_castInt_member env f hne (f.toInternal env x)
+    refine ⟨v', ?_, member_nn hok hm'⟩
+    simp only [Domain.cast, NNDom.cast, hx, hv']
+  | fin f =>
+    simp only [Domain.ok] at hok
+    have hm : v ∈ f.values env := List.contains_iff_mem.mp hv
+    obtain ⟨k, _, rfl⟩ := fin_mem_values hm
+    have hnum : ∃ x, (f.valueAt env k).num? = some x := by
+      unfold FinDom.valueAt; split <;> exact ⟨_, rfl⟩
+    obtain ⟨x, hx⟩ := hnum
+    obtain ⟨v', hv', hm'⟩ := fin_cast_member env f hok _ x hx
+    exact ⟨v', hv', member_fin hm'⟩
+
+/-- **cast of a member is the member itself** for float, integer, categorical, ordinal and (with
+a strictly increasing `log`) nearest-neighbour ordinal domains -/
+theorem cast_member_id {env : Env} {c : Consts} {d : Domain} (hok : d.ok = true) {v : Val}
+    (hv : d.member env v = true) (hnf : ∀ f, d ≠ .fin f)
+    (hmono : ∀ f, d = .nn f → LogMono env f.log) : d.cast env c v = .ok v := by
+  cases d with
+  | flt f =>
+    cases v with
+    | flt x => rfl
+    | int _ => simp [Domain.member] at hv
+    | str _ => simp [Domain.member] at hv
+  | int f =>
+    cases v with
+    | int k => exact int_cast_member f k
+    | flt _ => simp [Domain.member] at hv
+    | str _ => simp [Domain.member] at hv
+  | cat f =>
+    simp only [Domain.ok] at hok
+    exact cat_cast_member hok (mem_of_member_cats hv hok)
+  | nn f =>
+    simp only [Domain.ok] at hok
+    exact nn_cast_self hok (hmono f rfl) (mem_of_member_cats hv (nn_catsOk hok))
+  | fin f => exact absurd rfl (hnf f)
+
+/-! ### JSON form -/
+
+/- Full statement: a space written to JSON and read back is equal and encodes identically.  False
+for reverse-log and quantised domains (the two counterexamples below). -/
+/-- **json (partial).** Every domain that is neither quantised nor reverse-log is restored
+identically by `config_space_from_json_dict (config_space_to_json_dict ·)` — identical domain,
+hence identical encoder (`mkRange` is a function of the domain). -/
+theorem json_roundtrip_partial {d : Domain} (hok : d.ok = true) (hq : isQuantised d = false)
+    (hr : d.isRLog = false) : jsonRoundTrip d = .ok d :=
+  json_roundtrip_dom hok hq hr
+
+/-- `reverseloguniform(0.1, 0.9)` is read back as `loguniform(0.1, 0.9)`: `str(sampler)` of
+`_ReverseLogUniform` is the inherited `"LogUniform"` -/
+theorem json_rlog_counterexample :
+    jsonRoundTrip (.flt ⟨1 / 10, 9 / 10, .rlog, none⟩) = .ok (.flt ⟨1 / 10, 9 / 10, .log, none⟩) := by
+  have hs : ¬ ("LogUniform" = "Uniform") := by decide
+  norm_num [jsonRoundTrip, toDict, fromDict, samplerStr, samplerOf, hs]
+
+/-- a quantised domain cannot be written to JSON at all (`sampler_kwargs` holds a sampler object) -/
+theorem json_quantized_counterexample :
+    jsonRoundTrip (.int ⟨1, 10, .lin, some 4⟩) = .error .typeError := rfl
+
+/-! ### `get_ndarray_bounds` -/
+
+/-- **bounds_in_cube.** The bounds every encoder advertises: as many pairs as coordinates, each
+inside `[0,1]` (so the box of `active_partial` is a subset of the cube of `decode_member`). -/
+theorem bounds_in_cube {env : Env} {c : Consts} {h : HP} {r : Range} (hmk : mkRange env c h = .ok r) :
+    r.bounds.length = r.size ∧ ∀ b ∈ r.bounds, 0 ≤ b.1 ∧ b.2 ≤ 1 :=
+  range_bounds_cube hmk
+
+/-! ### log-spaced finite range with `cast_int`: the round trip fails -/
+
+/-- a piecewise-linear stand-in for `log`/`exp` on `[3/5, 8/5]` (concave, strictly increasing,
+with its exact inverse): it satisfies every hypothesis the theorems put on the abstract scaling -/
+def pwLog : Scaling where
+  toInt := fun x => if x ≤ 1 then (x - 3 / 5) * (13 / 10) else 13 / 25 + (x - 1) * (4 / 5)
+  fromInt := fun t => if t ≤ 13 / 25 then 3 / 5 + t * (10 / 13) else 1 + (t - 13 / 25) * (5 / 4)
+
+def pwEnv : Env := ⟨pwLog, ⟨id, id⟩, ⟨id, id⟩⟩
+def cxConsts : Consts := ⟨1 / 100000000, 499 / 1000, 1 / 100⟩
+def cxFin : FinDom := ⟨3 / 5, 8 / 5, 2, true, true⟩
+
+theorem cx_low : cxFin.lowInt pwEnv = 0 := by decide +kernel
+theorem cx_up : cxFin.upInt pwEnv = 1 := by decide +kernel
+
+/-- encode the member `1`, decode: is the result `2`? -/
+def cxCheck : Bool :=
+  match mkFin pwEnv cxConsts cxFin.lower cxFin.upper cxFin.size .log cxFin.castInt with
+  | .ok r =>
+    match r.encode pwEnv cxConsts 1 with
+    | .ok x =>
+      match r.decode pwEnv cxConsts x with
+      | .ok v => v == .int 2
+      | .error _ => false
+    | .error _ => false
+  | .error _ => false
+
+theorem roundtrip_logfin_castint_counterexample :
+    (Domain.fin cxFin).ok = true ∧ ScalingHyp pwEnv cxConsts (.fin cxFin) ∧
+    cxFin.values pwEnv = [.int 1, .int 2] ∧
+    ∃ r x, mkFin pwEnv cxConsts cxFin.lower cxFin.upper cxFin.size .log cxFin.castInt = .ok r ∧
+      r.encode pwEnv cxConsts 1 = .ok x ∧ r.decode pwEnv cxConsts x = .ok (.int 2) := by
+  refine ⟨by decide +kernel, ?_, by decide +kernel, ?_⟩
+  · intro _
+    rw [cx_low, cx_up]
+    refine ⟨?_, by norm_num, ?_⟩
+    · intro t h0 h1
+      simp only [pwEnv, pwLog]
+      by_cases ht : t ≤ 13 / 25
+      · have : 3 / 5 + t * (10 / 13) ≤ 1 := by linarith
+        simp only [ht, this, if_true]; ring
+      · have : ¬ (1 + (t - 13 / 25) * (5 / 4) ≤ 1) := by
+          rw [not_le] at ht ⊢; linarith
+        simp only [ht, this, if_false]; ring
+    · intro t h0 h1
+      simp only [pwEnv, pwLog, cxFin]
+      by_cases ht : t ≤ 13 / 25
+      · simp only [ht, if_true]; constructor <;> linarith
+      · simp only [ht, if_false]; rw [not_le] at ht; constructor <;> linarith
+  · have hc : cxCheck = true := by decide +kernel
+    unfold cxCheck at hc
+    split at hc
+    · rename_i r hr
+      split at hc
+      · rename_i x hx
+        split at hc
+        · rename_i v hv
+          exact ⟨r, x, hr, hx, by rw [hv, eq_of_beq hc]⟩
+        · cases hc
+      · cases hc
+    · cases hc
+
+/-! ### non-vacuity: concrete objects meeting the hypotheses -/
+
+section Examples
+
+/-- identity scalings (exact for linear kinds) and the literals `EPS = 1e-8`, `0.499`, `0.01` -/
+def exEnv : Env := ⟨⟨id, id⟩, ⟨id, id⟩, ⟨id, id⟩⟩
+def exConsts : Consts := ⟨1 / 100000000, 499 / 1000, 1 / 100⟩
+
+/-- `{"lr": uniform(0.1, 1) [active uniform(0.2, 0.5)], "n": randint(1, 81), "opt": choice([..3..])
+[active 2 of them], "k": finrange(0.1, 1, 10, cast_int=True)}` with `name_last_pos = "n"` -/
+def exHPs : List HP :=
+  [⟨"lr", .flt ⟨1 / 10, 1, .lin, none⟩, some (.flt ⟨1 / 5, 1 / 2, .lin, none⟩)⟩,
+   ⟨"n", .int ⟨1, 81, .lin, none⟩, none⟩,
+   ⟨"opt", .cat ⟨[.str "sgd", .str "adam", .str "rms"], false⟩, some (.cat ⟨[.str "adam", .str "rms"], false⟩)⟩,
+   ⟨"k", .fin ⟨1 / 10, 1, 10, false, true⟩, none⟩]
+
+/-- the space is accepted, has 6 encoded coordinates, internal order k, lr, opt, n -/
+example : ((mkSpace exEnv exConsts exHPs none (some "n") none).map
+    (fun sp => (sp.ndarraySize, sp.entries.map (·.1)))) = .ok (6, ["k", "lr", "opt", "n"]) := by
+  decide +kernel
+
+example : ∀ h ∈ exHPs, h.dom.ok = true := by decide +kernel
+example : ∀ h ∈ exHPs, Linear h.dom := by
+  intro h hh
+  simp only [exHPs, List.mem_cons, List.mem_nil_iff, or_false] at hh
+  rcases hh with rfl | rfl | rfl | rfl <;> simp [Linear]
+
+/-- hypotheses on the constants used by the theorems -/
+example : 0 < exConsts.eps ∧ exConsts.eps ≤ 1 / 2 ∧ exConsts.c499 < 1 / 2 := by decide +kernel
+
+/-- the abstract-scaling hypotheses are satisfiable by a genuinely non-linear scaling -/
+example : ScalingOK pwLog (3 / 5) (8 / 5) := by
+  refine ⟨?_, ?_, ?_⟩
+  · intro y h1 h2
+    simp only [pwLog]
+    by_cases hy : y ≤ 1
+    · have : (y - 3 / 5) * (13 / 10) ≤ 13 / 25 := by linarith
+      simp only [hy, this, if_true]; ring
+    · have : ¬ (13 / 25 + (y - 1) * (4 / 5) ≤ 13 / 25) := by rw [not_le] at hy ⊢; linarith
+      simp only [hy, this, if_false]; ring
+  · intro y z h1 h2 h3
+    simp only [pwLog]
+    by_cases hy : y ≤ 1 <;> by_cases hz : z ≤ 1 <;> simp only [hy, hz, if_true, if_false] <;>
+      (try rw [not_le] at hy) <;> (try rw [not_le] at hz) <;> linarith
+  · intro t u h1 h2 h3
+    simp only [pwLog] at h1 h3 ⊢
+    by_cases ht : t ≤ 13 / 25 <;> by_cases hu : u ≤ 13 / 25 <;> simp only [ht, hu, if_true, if_false] <;>
+      (try rw [not_le] at ht) <;> (try rw [not_le] at hu) <;> linarith
+
+/-- `qrandint(4, 16, 4)` meets the hypotheses of `sample_member_partial` -/
+example : DrawOK (.int ⟨4, 16, .lin, some 4⟩) (.idx 9) ∧ SampleHyp exEnv (.int ⟨4, 16, .lin, some 4⟩) := by
+  refine ⟨by simp [DrawOK], ?_⟩
+  simp only [SampleHyp]
+  refine ⟨by intro h; cases h, ?_⟩
+  intro q hq
+  injection hq with hq
+  subst hq
+  exact ⟨by decide, ⟨1, by decide⟩, ⟨4, by decide⟩⟩
+
+/-- the hypotheses of `active_onehot_partial` are satisfiable: a point of the bounds box of
+`choice([a,b,c,d])` / active `[b,c]` with a positive coordinate -/
+example : ∃ r, mkOneHot [.str "a", .str "b", .str "c", .str "d"] (some [.str "b", .str "c"]) = .ok r ∧
+    InBox [0, 1 / 2, 0, 0] r.bounds ∧ ∃ x ∈ ([0, 1 / 2, 0, 0] : List ℚ), 0 < x := by
+  refine ⟨⟨[.str "a", .str "b", .str "c", .str "d"], [(0, 0), (0, 1), (0, 1), (0, 0)]⟩, rfl, ?_,
+    ⟨1 / 2, by simp, by norm_num⟩⟩
+  refine ⟨rfl, ?_⟩
+  intro i hi hb
+  simp only [List.length_cons, List.length_nil] at hi
+  have : i = 0 ∨ i = 1 ∨ i = 2 ∨ i = 3 := by omega
+  rcases this with rfl | rfl | rfl | rfl <;> norm_num
+
+end Examples
+
 end SyneTune.C07
